@@ -23,6 +23,7 @@ from .. import coqlit as L
 from .. import coro_lang as C
 from ..framework import Prop, Stream
 
+CORO_IMPORTS = ["Coro.Tree", "Coro.Native", "Coro.Prog", "Coro.Relay", "Coro.RelayCorr"]
 WRAPPERS = ["CoroStart", "AsCoroutine", "CoroAwait", "CoroIter", "AwaitMethod", "AwaitMethodIter",
             "Monitor", "BoundMonitor", "Native"]
 GIVES_COROUTINE = {"AsCoroutine", "CoroAwait", "Monitor", "Native"}
@@ -170,6 +171,13 @@ def compare_upto(ref, got, what, with_outcome_at_cut=False):
     return None
 
 
+def first_throw_genexit(ops):
+    for i, op in enumerate(ops):
+        if op == ["throw", ["GeneratorExit"]]:
+            return i
+    return len(ops)
+
+
 def oracle_native(case, ob):
     """direct drive of the coroutine == drive of `await coroutine`"""
     if not isinstance(ob, list) or (ob and ob[0] == -999):
@@ -184,7 +192,10 @@ def oracle_native(case, ob):
             ref = C.drive(r, case["ops"], b, stop_at_end=False, ctx=ctx)
         finally:
             b.dispose()
-    return compare_upto(ref, [s[:2] for s in ob], "direct drive")
+    # coroutine.throw(GeneratorExit) is not what `await` does with a GeneratorExit (it calls
+    # close()): compare only the operations before the first direct throw of GeneratorExit
+    n = first_throw_genexit(case["ops"])
+    return compare_upto(ref[:n], [s[:2] for s in ob][:n], "direct drive")
 
 
 def gen_native(rng, tier):
@@ -201,7 +212,8 @@ def gen_native(rng, tier):
                 for ops in itertools.product(alphabet, repeat=2):
                     yield {"prog": p, "ops": [["send", None]] + [list(o) for o in ops]}
     for i in range(1500 if quick else 30000):
-        p = C.renumber(C.random_prog(rng, rng.choice([3, 5, 7, 9, 12]), vars_=(i % 4 == 0)))
+        p = C.renumber(C.random_prog(rng, rng.choice([3, 5, 7, 9, 12]), in_handler=(i % 3 == 1),
+                                     vars_=(i % 4 == 0)))
         ops = C.random_ops(rng, rng.choice([2, 3, 4, 6]), start=rng.random() < 0.9)
         yield {"prog": p, "ops": ops}
 
@@ -258,8 +270,15 @@ def native_reference(case):
 def oracle_wrap(case, ob):
     if not (isinstance(ob, list) and len(ob) == 2 and isinstance(ob[1], list)):
         return f"runner failed: {ob!r}"[:200]
+    if "OOBData" in repr(case["prog"]) and any("Monitor" in w for w in case["ws"]):
+        return None     # OOBData is the Monitor's own protocol exception: outside the property
     ref = native_reference(case)
     got = [s[:2] for s in ob[1]]
+    if case["ws"][0] == "AwaitMethod":
+        # the iterator made by awaitmethod is the coroutine's own: it is meant to be consumed by
+        # `await obj` (the Native/AwaitMethod stacks), which never throws GeneratorExit but closes
+        n = first_throw_genexit(case["ops"])
+        ref, got = ref[:n], got[:n]
     m = compare_upto([s[:2] for s in ref], got, f"{'/'.join(case['ws'])}")
     if m:
         return m
@@ -296,6 +315,32 @@ SEED_PROGS = [
 ]
 
 
+# a bare `raise` where no exception is being handled (after the handler has completed, in a
+# finally block entered normally, in a nested call): natively RuntimeError('No active exception
+# to reraise'); must not pick up an exception some wrapper happens to be handling (finding F14)
+BARE_SEEDS = [
+    ["seq", ["try", ["tok", 1], ["E1"], ["skip"]], ["reraise"]],
+    ["seq", ["try", ["tok", 1], ["BaseException"], ["tok", 2]], ["seq", ["log", 1], ["reraise"]]],
+    ["fin", ["try", ["tok", 1], ["E1", "CancelledError"], ["log", 1]], ["try", ["reraise"], ["Exception"], ["tok", 2]]],
+    ["seq", ["try", ["tok", 1], ["E1"], ["log", 1]], ["call", ["seq", ["tok", 2], ["reraise"]]]],
+]
+
+
+def has_bare_reraise(p, handled=False):
+    k = p[0]
+    if k == "reraise":
+        return not handled
+    if k == "call":
+        return has_bare_reraise(p[1], handled)
+    if k == "seq":
+        return has_bare_reraise(p[1], handled) or has_bare_reraise(p[2], handled)
+    if k == "fin":
+        return has_bare_reraise(p[1], handled) or has_bare_reraise(p[2], handled)
+    if k == "try":
+        return has_bare_reraise(p[1], handled) or has_bare_reraise(p[3], True)
+    return False
+
+
 def gen_wrap(rng, tier):
     quick = tier == "quick"
     real = WRAPPERS[:8]
@@ -304,19 +349,33 @@ def gen_wrap(rng, tier):
     progs = [C.renumber(p) for n in range(1, 4 if quick else 5) for p in C.enum_progs(n)]
     progs = [p for p in progs if "tok" in repr(p)] + [p for p in progs if "tok" not in repr(p)][:12]
     yield from _single_wrapper_cases(progs, 2 if quick else 3, real)
-    yield from _single_wrapper_cases([C.renumber(p) for p in SEED_PROGS], 3, real)
+    for c in _single_wrapper_cases(progs, 2 if quick else 3, ["AwaitMethod"]):
+        c["ws"] = ["Native", "AwaitMethod"]
+        yield c
+    yield from _single_wrapper_cases([C.renumber(p) for p in SEED_PROGS + BARE_SEEDS], 3, real)
     # 2. bounded-exhaustive, depth 2: every ordered pair of wrappers x seed bodies
-    pairs = [[a, b] for a in real for b in WRAPPERS]
+    pairs = [[a, b] for a in real for b in WRAPPERS] + [["Native", "AwaitMethod"]]
     for p in [C.renumber(q) for q in SEED_PROGS]:
         seqs = list(C.enum_live_ops(p, 2 if quick else 3))
         for ws in pairs:
             for ops in seqs:
                 yield {"ws": ws, "prog": p, "ops": ops}
+    # 2b. outside the property, model vs code only: the body raises the Monitor's own OOBData
+    for p in [["raise", ["OOBData", 1]], ["seq", ["log", 1], ["raise", ["OOBData", None]]],
+              ["seq", ["tok", 11], ["raise", ["OOBData", 2]]],
+              ["try", ["raise", ["OOBData", 1]], ["Exception"], ["tok", 11]]]:
+        for ws in [["Monitor"], ["BoundMonitor"], ["CoroIter", "Monitor"], ["Monitor", "BoundMonitor"],
+                   ["CoroStart"], ["Monitor", "CoroAwait"]]:
+            for ops in C.enum_live_ops(p, 1):
+                yield {"ws": ws, "prog": p, "ops": ops}
     # 3. random: larger bodies, longer drivers, stacks of depth 1..3
     for i in range(1800 if quick else 60000):
-        p = C.renumber(C.random_prog(rng, rng.choice([3, 5, 7, 9, 12])))
+        p = C.renumber(C.random_prog(rng, rng.choice([3, 5, 7, 9, 12]), in_handler=(i % 5 == 1),
+                                     oob=(i % 10 == 0)))
         depth = rng.choice([1, 1, 2, 2, 3])
         ws = [rng.choice(real)] + [rng.choice(WRAPPERS) for _ in range(depth - 1)]
+        if ws[0] == "AwaitMethod" and i % 2:
+            ws = ["Native"] + ws          # `await obj` with obj.__await__ made by awaitmethod
         yield {"ws": ws, "prog": p, "ops": C.random_ops(rng, rng.choice([2, 3, 4, 6]))}
 
 
@@ -398,6 +457,24 @@ def coq_cs(case):
             f"{coq_mode(case['m2'])}, {C.coq_ops(case['ops2'])})")
 
 
+def pep380_drive(c, ops, body, raw_first=False):
+    """what `await c` does with each operation, written out (PEP 380): send -> c.send, throw ->
+    c.throw, except GeneratorExit (and close()) -> c.close() and then GeneratorExit.  With
+    raw_first the first operation is applied to c as it is."""
+    trace = []
+    for i, op in enumerate(ops):
+        if op[0] == "throw" and op[1] == ["GeneratorExit"] and not (raw_first and i == 0):
+            out = C.apply_op(c, ["close"])
+            if out == [1, []]:
+                out = [2, [1]]
+        else:
+            out = C.apply_op(c, op)
+        trace.append([body.drain(), out])
+        if out[0] != 0:
+            break
+    return trace
+
+
 def oracle_cs(case, ob):
     if not (isinstance(ob, list) and len(ob) == 4):
         return f"runner failed: {ob!r}"[:200]
@@ -405,35 +482,31 @@ def oracle_cs(case, ob):
     m1, ops1 = case["m1"], case["ops1"]
     if not ops1 or ops1[0] != ["send", None]:
         return None
-    # reference: the same body awaited natively; CoroStart() = send(None)
+    # reference: the body coroutine itself; CoroStart() = send(None); athrow(e) = throw e at the
+    # suspension; everything after = PEP 380 forwarding
     with C.quiet():
         b = C.Body(case["prog"])
         try:
-            r = C.lift(b.new())
-            b.kept.append(r)
-            first = C.drive(r, [["send", None]], b)[0]
+            c = b.new()
+            first = C.drive(c, [["send", None]], b)[0]
             if first[0] != ev0:
                 return f"CoroStart() ran {ev0} but the first native step logs {first[0]}"
             done = first[1][0] != 0
             if done != bool(st[0]):
                 return f"done()={st[0]} but the native first step gives {first[1]}"
             if m1[0] == "await":
-                if done:
-                    ref = [[[], first[1]]]
-                else:
-                    ref = [[[], first[1]]] + C.drive(r, ops1[1:], b)
+                ref = [[[], first[1]]] + ([] if done else pep380_drive(c, ops1[1:], b))
                 m = compare_upto(ref, tr1, "await CoroStart")
             elif m1[0] == "athrow":
-                ref = C.drive(r, [["throw", m1[1]]] + ops1[1:], b)
+                ref = pep380_drive(c, [["throw", m1[1]]] + ops1[1:], b, raw_first=True)
                 m = compare_upto(ref, tr1, f"athrow({m1[1]})")
             else:   # aclose
                 if done:
                     ref = [[[], [1, []]]]       # documented: nothing to close, returns None
                 else:
-                    ref = C.drive(r, [["throw", ["GeneratorExit"]]] + ops1[1:], b)
+                    ref = pep380_drive(c, [["throw", ["GeneratorExit"]]] + ops1[1:], b, raw_first=True)
                     # aclose absorbs GeneratorExit and discards a returned value
-                    if C.cut_at_ignored(ref) is None and ref and (
-                            ref[-1][1] == [2, [1]] or ref[-1][1][0] == 1):
+                    if ref[-1][1] == [2, [1]] or ref[-1][1][0] == 1:
                         ref[-1] = [ref[-1][0], [1, []]]
                 m = compare_upto(ref, tr1, "aclose()")
             if m:
@@ -455,7 +528,7 @@ def gen_cs(rng, tier):
              ["aclose"], ["await"]]
     progs = [C.renumber(p) for n in range(1, 4 if quick else 5) for p in C.enum_progs(n)]
     progs = [p for p in progs if "tok" in repr(p)] + [p for p in progs if "tok" not in repr(p)][:8]
-    progs += [C.renumber(p) for p in SEED_PROGS]
+    progs += [C.renumber(p) for p in SEED_PROGS + BARE_SEEDS]
     alphabet = C.OPS_SMALL
     k = 0
     for p in progs:
@@ -465,7 +538,7 @@ def gen_cs(rng, tier):
                 yield {"prog": p, "m1": m1, "ops1": [["send", None]] + [list(o) for o in tail],
                        "m2": modes[k % len(modes)], "ops2": [["send", None]]}
     for i in range(700 if quick else 20000):
-        p = C.renumber(C.random_prog(rng, rng.choice([3, 5, 7, 9])))
+        p = C.renumber(C.random_prog(rng, rng.choice([3, 5, 7, 9]), in_handler=(i % 5 == 1)))
         m1 = rng.choice(modes + [["athrow", rng.choice(C.RAISABLE[:5])]])
         yield {"prog": p, "m1": m1, "ops1": C.random_ops(rng, rng.choice([1, 2, 3, 5])),
                "m2": rng.choice(modes), "ops2": C.random_ops(rng, rng.choice([0, 1]))}
@@ -489,6 +562,18 @@ def shrink_cs(case):
         yield c
 
 
+def signature(stream, case, msg):
+    """one report per stream and outermost wrapper / mode; F14 = a bare `raise` outside any
+    handler picks up the exception a relay loop is handling"""
+    if stream in ("wrap", "cs") and has_bare_reraise(case["prog"]) and "[5, 5]" in msg.replace("[[5, 5]]", "[5, 5]"):
+        return "F14-relay-exc-info-leak"
+    if stream == "wrap":
+        return f"C02-wrap-{case['ws'][0]}-{len(case['ws'])}"
+    if stream == "cs":
+        return f"C02-cs-{case['m1'][0]}"
+    return f"C02-{stream}"
+
+
 def describe(case):
     d = dict(case)
     d["source"] = C.render(case["prog"])
@@ -499,18 +584,18 @@ PROP = Prop(
     pid="C02",
     props_v="theories/Props/C02.v",
     theory_files=["theories/Coro/Tree.v", "theories/Coro/Native.v", "theories/Coro/Prog.v",
-                  "theories/Coro/TreeProofs.v", "theories/Coro/Relay.v", "theories/Coro/RelayProofs.v",
+                  "theories/Coro/TreeProofs.v", "theories/Coro/Relay.v", "theories/Coro/RelayProofs.v", "theories/Coro/AwaitMethodProofs.v",
                   "theories/Coro/RelayCorr.v"],
     streams=[
-        Stream(name="native", imports=["Coro.RelayCorr"], run="native_run",
+        Stream(name="native", imports=CORO_IMPORTS, run="native_run",
                input_type="prog * list dop", gen=gen_native, impl=impl_native, to_coq=coq_native,
                oracle=oracle_native, nontrivial=nontrivial_native, shrink=shrink_case,
                describe=describe, corr_name="CPython coroutine protocol (Tree/Native/Prog)"),
-        Stream(name="wrap", imports=["Coro.RelayCorr"], run="wrap_run",
+        Stream(name="wrap", imports=CORO_IMPORTS, run="wrap_run",
                input_type="list wrapper * prog * list dop", gen=gen_wrap, impl=impl_wrap,
                to_coq=coq_wrap, oracle=oracle_wrap, nontrivial=nontrivial_wrap, shrink=shrink_case,
                describe=describe, corr_name="asynkit wrappers (Relay.v)"),
-        Stream(name="cs", imports=["Coro.RelayCorr"], run="cs_run",
+        Stream(name="cs", imports=CORO_IMPORTS, run="cs_run",
                input_type="prog * cs_mode * list dop * cs_mode * list dop", gen=gen_cs, impl=impl_cs,
                to_coq=coq_cs, oracle=oracle_cs, nontrivial=nontrivial_cs, shrink=shrink_cs,
                describe=describe, corr_name="CoroStart.athrow/aclose (Relay.v)"),
@@ -522,6 +607,7 @@ PROP = Prop(
          "bodies; random bodies (3..12 nodes), drivers (<= 7 ops over 11 operations) and stacks of "
          "depth 1..3.  Non-trivial = the body suspended and at least one more operation went through "
          "the wrapper; distinct = distinct canonical JSON of the input",
+    signature=signature,
     assumptions=["CPython 3.12 coroutine/generator protocol is modelled by Coro/Tree.v + Native.v and "
                  "validated against CPython by the `native` stream",
                  "each wrapper is awaited once; the body does not use Monitor.oob() (C07) and no "
